@@ -98,3 +98,11 @@ Definition holds_call (c : ccase) : bool :=
 Definition qnat (n : nat) : Qc := Q2Qc (inject_Z (Z.of_nat n)).
 Definition ramp (base : Qc) (more less : nat) (n : nat) : list Qc :=
   map (fun i => (base + qnat 10 * qnat n + qnat i)%Qc) (seq 0 (n + more - less)).
+
+(* a history: several filters alive in one process, their calls and the consumption of their results
+   interleaved by the harness, argument objects possibly shared between calls.  The code is pure per call,
+   so every call must equal the per-call model on the contents its arguments had when the call was made
+   (the harness snapshots them), and no argument object may have been changed by the library. *)
+Record hcase := HC { h_cases : list ccase; h_args_intact : bool }.
+Definition corr_hist (h : hcase) : bool := h_args_intact h && forallb corr_call (h_cases h).
+Definition holds_hist (h : hcase) : bool := forallb holds_call (h_cases h).
